@@ -1278,4 +1278,74 @@ example : Admissible .l2 2 2 [[0, 0], [1, 0], [0, 1], [1, 1]] ([0, 0] : Pt ℝ) 
       simp [pdist, dist, normOf, vsub, sumL_real]
 
 
+/-! ## pass 7: `knn(sorted=False)` -/
+
+/-- **knn with `sorted=False`** (the configuration that had no model): for EVERY kernel meeting the unsorted `topk` contract
+the returned values are — as a multiset, in whatever order — the `k` smallest (largest) distances, they are the distances at
+the returned indices, the indices are `k` distinct valid positions, and no neighbour that was left out is closer (farther)
+than one that was returned. With `sorted=True` the entry point is `knnApi` (`knn_api_spec`, `knn_spec`). -/
+theorem knn_unsorted_spec (topk topkU : Bool → List ℝ → Nat → List Nat) (htk : TopkContractU topkU) (D : Nat) (o : Norm)
+    (lg : Bool) (kk : Nat) (ref nbr : List (Pt ℝ)) (hne : ¬ (o = .linf ∧ D = 0)) (hk : kk ≤ nbr.length) :
+    knnApiS topk topkU D o lg false kk ref nbr = some (ref.map (knnRow topkU o lg kk nbr)) ∧
+    ∀ r ∈ ref,
+      ((knnRow topkU o lg kk nbr r).1).Perm ((sortVals lg (nbr.map (dist o r))).take kk) ∧
+      (knnRow topkU o lg kk nbr r).1 = (knnRow topkU o lg kk nbr r).2.map (fun j => dist o r (nbr.getD j [])) ∧
+      (knnRow topkU o lg kk nbr r).2.length = kk ∧ (knnRow topkU o lg kk nbr r).2.Nodup ∧
+      (∀ j ∈ (knnRow topkU o lg kk nbr r).2, j < nbr.length) ∧
+      ∀ i ∈ (knnRow topkU o lg kk nbr r).2, ∀ j, j < nbr.length → j ∉ (knnRow topkU o lg kk nbr r).2 →
+        ordRel lg (dist o r (nbr.getD i [])) (dist o r (nbr.getD j [])) := by
+  constructor
+  · have h1 : ¬ normRaises o D = true := fun e => hne ((normRaises_iff o D).1 e)
+    simp [knnApiS, knnApi, knn, h1, Nat.not_lt.2 hk]
+  · intro r _
+    have h := htk lg (nbr.map (dist o r)) kk (by simpa using hk)
+    have hin : ∀ j ∈ topkU lg (nbr.map (dist o r)) kk, j < nbr.length := fun j hj => by simpa using h.inb j hj
+    refine ⟨?_, ?_, h.len, h.nodup, hin, ?_⟩
+    · simpa [knnRow] using h.values_perm
+    · simp only [knnRow, k0_real]
+      apply List.map_congr_left
+      intro j hj
+      rw [List.getD_eq_getElem (nbr.map (dist o r)) 0 (n := j) (by simpa using hin j hj),
+        List.getD_eq_getElem nbr [] (n := j) (hin j hj)]
+      simp
+    · intro i hi j hj hnot
+      have hl := h.least i hi j (by simpa using hj) hnot
+      have hii := hin i hi
+      rw [List.getD_eq_getElem (nbr.map (dist o r)) 0 (n := i) (by simpa using hii),
+        List.getD_eq_getElem (nbr.map (dist o r)) 0 (n := j) (by simpa using hj)] at hl
+      rw [List.getD_eq_getElem nbr [] (n := i) hii, List.getD_eq_getElem nbr [] (n := j) hj]
+      simpa using hl
+
+/-- an unsorted kernel exists: any sorted kernel (the driver's stand-in), also with its answer reversed -/
+example : TopkContractU (topkStd (α := ℝ)) := fun lg vals kk hk => (topkStd_spec lg vals kk hk).toU
+
+/-! ## pass 7: which choices `knn_filter_spec_ties` allows -/
+
+/-- **the admissible choices, characterised.** The brute-force choice (sort the cloud by distance to `p`, take the first
+`m`) is admissible for every cloud, ties or not — so `knn_filter_spec_ties` always allows the brute-force mean — and when
+there is a strict gap at the cut the admissible choices are EXACTLY the reorderings of it: `knn_filter_spec_ties` then pins
+the row down to the one value of `knn_filter_spec_gap`. -/
+theorem admissible_iff_nearest_of_gap (o : Norm) (pdim m : Nat) (pts : List (Pt ℝ)) (p : Pt ℝ) (hm : m ≤ pts.length) :
+    Admissible o pdim m pts p (nearest o pdim m pts p) ∧
+    (CutGap o pdim m pts p → ∀ L, Admissible o pdim m pts p L ↔ L.Perm (nearest o pdim m pts p)) := by
+  refine ⟨nearest_admissible o pdim m pts p hm, fun hg L => ⟨admissible_unique_of_gap o pdim m pts p hg L, ?_⟩⟩
+  intro hL
+  obtain ⟨hlen, R, hperm, hle⟩ := nearest_admissible o pdim m pts p hm
+  exact ⟨hL.length_eq.trans hlen, R, (hL.append_right R).trans hperm, fun a ha b hb => hle a (hL.subset ha) b hb⟩
+
+/-- without the gap the admissible choices are genuinely several: two points at the same distance, `m = 1` — either of them
+alone is admissible, and they are not reorderings of one another (so the tie theorem cannot be strengthened to `nearest`) -/
+example : Admissible .l1 1 1 [[1], [-1]] ([0] : Pt ℝ) [[1]] ∧ Admissible .l1 1 1 [[1], [-1]] ([0] : Pt ℝ) [[-1]] ∧
+    ¬ ([[1]] : List (Pt ℝ)).Perm [[-1]] := by
+  refine ⟨⟨rfl, [[-1]], List.Perm.refl _, ?_⟩, ⟨rfl, [[1]], List.Perm.swap _ _ _, ?_⟩, ?_⟩
+  · intro a ha b hb
+    simp only [List.mem_singleton] at ha hb
+    subst ha hb
+    simp [pdist, dist, normOf, vsub, sumL_real, sabs_real]
+  · intro a ha b hb
+    simp only [List.mem_singleton] at ha hb
+    subst ha hb
+    simp [pdist, dist, normOf, vsub, sumL_real, sabs_real]
+  · rw [List.perm_singleton, List.singleton_inj, List.singleton_inj]; norm_num
+
 end PP.Cloud
